@@ -9,7 +9,7 @@
 (* Predict(d, pr) turns it into the observation record the harness         *)
 (* compares with the real NLP.                                             *)
 (***************************************************************************)
-EXTENDS Expr, Grids, Schemes, RatPoly, TLC
+EXTENDS Expr, Grids, Schemes, RatPoly, TLC, FiniteSets
 
 NX(d) == Len(d.states)
 NU(d) == Len(d.controls)
@@ -197,6 +197,7 @@ DeclaredPoints(c, N, M, deg) ==
               /\ (pt.k = 0 /\ pt.l = 0 => c.incF) /\ (pt.k = N => c.incL)}
     [] c.grid = "roots" -> {[k |-> k, l |-> l, j |-> j] : k \in 0..N - 1, l \in 0..M - 1, j \in 1..deg}
     [] c.grid = "point" -> {[k |-> -1, l |-> 0, j |-> 0]}
+    [] c.grid = "inf" -> {}
 
 (* the loops of MultipleShooting / SingleShooting.add_constraints, with the
    IndexError drop rule of eval_at_control (k = -1 stands for the final node) *)
@@ -213,6 +214,7 @@ EmittedPoints(c, N, M, deg, Devs) ==
          \cup (IF c.incL THEN {[k |-> N, l |-> 0, j |-> 0]} ELSE {})
     [] c.grid = "roots" -> {[k |-> k, l |-> l, j |-> j] : k \in 0..N - 1, l \in 0..M - 1, j \in 1..deg}
     [] c.grid = "point" -> {[k |-> -1, l |-> 0, j |-> 0]}
+    [] c.grid = "inf" -> {}
 
 EnvAt(W, pt) ==
   IF pt.k = -1 THEN EnvNS(W)
@@ -330,6 +332,50 @@ PredictSampler(W, r) ==
   IN [t |-> Tup([i \in 1..Len(q) |-> Add(W.ig[q[i][1]], sOf(i))]),
       v |-> Tup([i \in 1..Len(q) |-> Eval(r.e, EnvDense(W, kOf(i), lOf(i), sOf(i)))])]
 
+(***************************************************************************)
+(* grid='inf' constraints (C15).  On step (k,l) the state trajectory is    *)
+(* the polynomial x(dt*tau), tau in [0,1], dt the length of *that* step.   *)
+(* A polynomial constraint e(x) <= b is imposed through the Bernstein      *)
+(* coefficients of p(tau) = e(x(dt*tau)) on [0,1]: all of them <= b.  By   *)
+(* the convex-hull property (MC_Bernstein.tla) this is sufficient for      *)
+(* p(tau) <= b on the whole step.                                          *)
+(***************************************************************************)
+\* state polynomials in tau (power basis), one per state, from the dense-output coefficients
+StatePolys(W, k, l) ==
+  LET c == W.res[k + 1].coefs[l + 1]
+      dt == StepLen(W, k)
+  IN Tup([i \in 1..NX(W.d) |-> Tup([j \in 1..Len(c) |-> Mul(c[j][i], Pow(dt, j - 1))])])
+
+\* polynomial of an expression over states / parameters / constants; inf_der(x_i) = d/dt of the state polynomial
+RECURSIVE PolyOf(_, _, _, _)
+PolyOf(e, xp, env, dt) ==
+  CASE e.op = "x"   -> xp[e.i]
+    [] e.op = "dx"  -> PScale(Inv(dt), PDer(xp[e.i]))
+    [] e.op = "add" -> PAdd(PolyOf(e.a, xp, env, dt), PolyOf(e.b, xp, env, dt))
+    [] e.op = "sub" -> PSub(PolyOf(e.a, xp, env, dt), PolyOf(e.b, xp, env, dt))
+    [] e.op = "mul" -> PMul(PolyOf(e.a, xp, env, dt), PolyOf(e.b, xp, env, dt))
+    [] e.op = "neg" -> PScale(R(-1), PolyOf(e.a, xp, env, dt))
+    [] e.op = "sq"  -> LET q == PolyOf(e.a, xp, env, dt) IN PMul(q, q)
+    [] OTHER        -> <<Eval(e, env)>>          \* constants, parameters, controls, time: constant on the step
+
+InfRows(W, c) ==
+  \* one group per integrator step: the Bernstein coefficients of lhs - rhs (for "le") must be <= 0
+  Flat(Tup([i \in 1..W.N * W.M |->
+     LET k == (i - 1) \div W.M
+         l == (i - 1) % W.M
+         env == EnvNode(W, k)
+         dt == StepLen(W, k)
+         xp == StatePolys(W, k, l)
+         p == IF c.rel = "le" THEN PSub(PolyOf(c.rhs, xp, env, dt), PolyOf(c.lhs, xp, env, dt))
+              ELSE PSub(PolyOf(c.lhs, xp, env, dt), PolyOf(c.rhs, xp, env, dt))
+     IN ToBernstein(p)]))
+
+PredictInf(W) ==
+  LET idx == {ci \in 1..Len(W.d.cons) : W.d.cons[ci].grid = "inf"}
+  IN Tup([n \in 1..Cardinality(idx) |->
+        LET ci == CHOOSE x \in idx : Cardinality({y \in idx : y < x}) = n - 1
+        IN [cid |-> W.d.cons[ci].cid, s |-> Tup([j \in 1..Len(InfRows(W, W.d.cons[ci])) |-> Div(InfRows(W, W.d.cons[ci])[j], W.d.cons[ci].scale)])]])
+
 PredictReadR(W, r) ==
   IF r.kind = "refine" THEN PredictRefine(W, r)
   ELSE IF r.kind = "sampler" THEN PredictSampler(W, r)
@@ -419,7 +465,7 @@ Predict(d, pr, pr2) ==
       gridfeas |-> DeclFeasible(d.method.grid, W.N, W.t0, W.T, pr.gv),
       start |-> StartOf(d), tpos |-> TPos(d, W), scales |-> Scales(d),
       gaps |-> PredictGaps(W),
-      cons |-> PredictCons(W, W2),
+      cons |-> PredictCons(W, W2), inf |-> PredictInf(W),
       f |-> PredictObj(W),
       reads |-> Tup([i \in 1..Len(d.reads) |-> PredictReadR(W, d.reads[i])])]
 =============================================================================
